@@ -24,7 +24,7 @@ import (
 func TestMain(m *testing.M) { rec.Main(m, "C09") }
 
 // ruleMore describes what was added to the exploration in the build phase.
-const ruleMore = "; also: \\p{Name} for every table name of Go's unicode package and class names of other notations (a sentence iff documented), ranges whose end points are surrogate code points"
+const ruleMore = "; repetition ranges with minimum above maximum also with counts up to 5000, counts that overflow an integer; also: \\p{Name} for every table name of Go's unicode package and class names of other notations (a sentence iff documented), ranges whose end points are surrogate code points"
 
 const rule = "strings: (a) every string up to a length bound over a reduced alphabet (the 13 metacharacters, ^ - , : and representatives a b 0 1 x p A), " +
 	"(b) canonical prints of generated pattern trees, (c) single-edit mutations of (b), (d) patterns seeded with a descending range or a min>max repetition in every spelling; " +
@@ -319,6 +319,14 @@ func TestMeaninglessRangesRejected(t *testing.T) {
 		} else {
 			n := rapid.IntRange(1, 12).Draw(t, "n")
 			m := rapid.IntRange(0, n-1).Draw(t, "m")
+			if rapid.IntRange(0, 3).Draw(t, "large") == 0 {
+				// large counts: nothing has to be built for a range that is rejected
+				n = rapid.SampledFrom([]int{100, 255, 256, 1000, 1001, 1024, 2000, 4096, 5000}).Draw(t, "largeN")
+				m = n - rapid.SampledFrom([]int{1, 1, 2, 10, 500, n}).Draw(t, "below")
+				if m < 0 {
+					m = 0
+				}
+			}
 			ms := fmt.Sprint(m)
 			if rapid.Bool().Draw(t, "pad") {
 				ms = "0" + ms
@@ -333,6 +341,29 @@ func TestMeaninglessRangesRejected(t *testing.T) {
 			}
 		}
 	})
+}
+
+// Counts that no integer holds: a text with such a count may be rejected (it is grammatical, but nothing can be built
+// for it); it must never be accepted as if it said something else, least of all when its minimum exceeds its maximum.
+func TestOverflowingCounts(t *testing.T) {
+	rec.Begin(t)
+	rec.Rule(rule + ruleMore)
+	if rec.Shard() != 0 {
+		t.Skip("seed independent: shard 0 only")
+	}
+	for _, big := range []string{"9223372036854775808", "18446744073709551616", "18446744073709551617", "18446744073709551618", "99999999999999999999", "340282366920938463463374607431768211457", "4294967296000000000000"} {
+		for _, form := range []string{"a{%s,1}", "a{%s,0}?", "(ab|c){%s,2}", "[0-9]{%s,3}x", "a{%s,%s}", "a{3,%s}", "a{0,%s}", "a{%s}", "a{%s,}"} {
+			s := strings.ReplaceAll(form, "%s", big)
+			e1, e2, perr := parseBoth(s)
+			rec.Case(s, true, "overflowing_count")
+			switch {
+			case perr != nil:
+				rec.Fail(t, "text", input{Text: s, Mode: "overflow"}, "text %q: %v", s, perr)
+			case e1 == nil || e2 == nil:
+				rec.Fail(t, "text", input{Text: s, Mode: "overflow"}, "text %q has a repetition count that no integer holds, but it is accepted (as which pattern?): nfa.Parse error=%v, ast.Parse error=%v", s, e1, e2)
+			}
+		}
+	}
 }
 
 // regression tier: the inputs of repaired defects (known_findings.json, status fixed)
@@ -466,6 +497,12 @@ func TestReplay(t *testing.T) {
 	switch in.Mode {
 	case "canonical":
 		err = checkCanonical(in.Text)
+	case "overflow":
+		if e1, e2, perr := parseBoth(in.Text); perr != nil {
+			err = perr
+		} else if e1 == nil || e2 == nil {
+			err = fmt.Errorf("text %q has a repetition count that no integer holds, but it is accepted", in.Text)
+		}
 	case "descending":
 		var frags []string
 		if in.Want != "" {
